@@ -198,6 +198,7 @@ class ArrayMaker:
 
     def __init__(self, w):
         self.prev, self.w = None, w
+        self.prev_objs = self.prev_case_rows = None
 
     def rows_of(self, case_rows, container, opts):
         recs = (opts or {}).get("builds")
@@ -211,7 +212,14 @@ class ArrayMaker:
         if opts.get("builds"):
             # rebuild the rows through the API; the case's rows are the runs this produced at generation time
             built = [build_row(tc0, tuple(rec), self.w) for tc0, rec in zip(opts["targets"], opts["builds"])]
-        new = mk_array(case_rows, container, built)
+        objs = built if built is not None else [wire.mk_fmt(r) for r in case_rows]
+        if opts.get("same_rows") and self.prev_objs is not None and self.prev_case_rows == case_rows:
+            objs = self.prev_objs                   # the SAME row objects as in the previous render (e.g. across a resize)
+        if opts.get("prestr"):
+            for o in objs:
+                str(o)                              # an application that printed / measured its rows before rendering them
+        self.prev_objs, self.prev_case_rows = objs, [list(r) for r in case_rows]
+        new = mk_array(case_rows, container, objs)
         style = opts.get("reuse")
         prev = self.prev
         if style and prev is not None and type(prev) is type(new):
@@ -500,9 +508,14 @@ def rand_history(r, pyte=True):
             c["steps"].append(("Z", h, w, rand_junk(r, h, w)))
         else:
             rows = rand_array(r, h, w, prev)
+            keep = bool(prev) and r.random() < (0.5 if c["steps"] and c["steps"][-1][0] == "Z" else 0.1)
+            if keep:
+                rows = prev                          # the same rows again - after a resize they may now have to be clipped
             prev, rendered_at = rows, (h, w)
-            container, rows = container_for(r, rows, w)
-            opts = step_opts(r, rows, container, w, c["steps"])
+            container, rows = (("list", rows) if keep else container_for(r, rows, w))
+            opts = step_opts(r, rows, container, w, c["steps"]) if not keep else dict(same_rows=True)
+            if r.random() < 0.15:
+                opts["prestr"] = True
             rows = opts.pop("rows", rows)
             prev = rows
             c["steps"].append(("R", (r.randint(0, h - 1), r.randint(0, w - 1)), rows, opts.pop("container", container), opts))
@@ -678,6 +691,16 @@ def check(ctx):
             cases.append(dict(h=2, w=3, junk=[], cursor=(0, 0), hide=True, pyte=False, pair=True,
                               steps=[("R", (0, 0), [[first] if first[0] else [], [("x", {})]], c1),
                                      ("R", (1, 1), [[second] if second[0] else [], [("x", red)]], c2)]))
+    # the same row OBJECTS rendered while they fit and again after the terminal narrowed, so that the width falls inside a
+    # run of a row that has already been turned into a string
+    two = [[("abcdefgh", red)], [("ab", {}), ("cdefgh", red)]]
+    for widths, pre in itertools.product(((10, 6, 4), (10, 4), (8, 7, 3), (9, 5)), (False, True)):
+        steps = []
+        for k, wd in enumerate(widths):
+            if k:
+                steps.append(("Z", 3, wd, []))
+            steps.append(("R", (0, 0), two, "list", dict(same_rows=bool(k), prestr=pre)))
+        cases.append(dict(h=3, w=widths[0], junk=[], cursor=(0, 0), hide=True, pyte=False, pair=True, steps=steps))
     # OUTSIDE the domain (control characters in a row): shown, not judged, not tied.  The window writes the newline as it
     # is; the terminal moves down a row instead of showing a glyph, so the screen no longer equals the array (the model's
     # `put` would store it as a cell - which is why `Glyphs` excludes control characters).
